@@ -353,6 +353,10 @@ def body(led):
     parallel.run(led, model_job, models)
     from . import c17_py
     c17_py.check(led)
+    # premise for the iso_ models: their internal force and kG integrate self.F, their k0L / kLL kernels (E11, nu, h): F must be the isotropic matrix
+    from . import c16_py
+    for m_ in ('iso_clpt_donnell_bc2', 'iso_clpt_donnell_bc3'):
+        c16_py.check_one(led, m_, False, None, False)
     ok, _ = K.compare(real('WX') * real('WX'), real('WX') * real('WX') * 0.5)
     led.canary('WX^2 == WX^2/2', not ok)
 
